@@ -82,7 +82,7 @@ class Check:
         return r
 
     # ------------------------------------------------------------------ trace validation
-    def validate(self, module, jobs, prefix, exe=None, parallel=16, env=None):
+    def validate(self, module, jobs, prefix, exe=None, parallel=16, env=None, collect=None):
         """jobs: list of objects with .id, .lines(), .open_event(). Returns list of (div, job)."""
         exe = exe or self.build_obj.exe("vharness")
         byid = {}
@@ -120,10 +120,51 @@ class Check:
                 lines = [next(f, None) for _ in range(8)]
             self.samples.append({"trace_head": [json.loads(l) for l in lines if l][:6]})
         for tf, _, _, _ in res:
+            if collect:
+                collect(tf)
             try:
                 os.remove(tf)
             except OSError:
                 pass
+        return divs
+
+    def validate_recorded(self, module, recorded, prefix, parallel=16):
+        """recorded: list of (job, [event dicts]) recorded by a Python driver (CLI / pty runs of the real binaries).
+        The events of each job must start with its Open event where the module needs one."""
+        byid = {j.id: j for j, _ in recorded}
+        n = max(1, min(parallel, len(recorded)))
+        d = os.path.join(self.scratch, "tr"); os.makedirs(d, exist_ok=True)
+        files = []
+        for i in range(n):
+            tf = os.path.join(d, "%s.%03d.ndjson" % (prefix, i))
+            with open(tf, "w") as f:
+                for j, evs in recorded[i::n]:
+                    for e in evs:
+                        f.write(json.dumps(e, separators=(",", ":")) + "\n")
+            files.append(tf)
+        out = tlc.validate_traces(module, files, self.scratch, parallel=parallel)
+        divs = []
+        for tf, r, data in out:
+            self.cmds.append(r.cmd) if len(self.cmds) < 6 else None
+            if r.verdict != "ok" or data is None:
+                i = r.out.find("Error:")
+                raise Infra("trace validation run failed (%s) on %s: %s" % (r.verdict, tf, r.out[i:i + 2500] if i >= 0 else r.out[-2500:]))
+            self.states += r.distinct; self.transitions += r.generated
+            for dv in data["divs"]:
+                divs.append((dv, byid.get(dv["id"])))
+            for c in data["cov"]:
+                self.cov.add(tuple(c))
+            for k, v in data["stats"].items():
+                self.stats[k] = self.stats.get(k, 0) + v
+            self.traces += data["stats"]["execs"]
+        self.evaluations += len(recorded)
+        for j, evs in recorded:
+            self.distinct.add(hashlib.sha1(json.dumps(evs[0], sort_keys=True).encode()).digest()[:8])
+        if len(self.samples) < 6 and recorded:
+            self.samples.append({"recorded_run": recorded[0][1][:3]})
+        for tf in files:
+            try: os.remove(tf)
+            except OSError: pass
         return divs
 
     # ------------------------------------------------------------------ known findings
